@@ -36,7 +36,12 @@ var kindTypes = map[string]reflect.Type{
 	"any": reflect.TypeOf((*interface{})(nil)).Elem(), "big": reflect.TypeOf((*decimal.Big)(nil)), "time": reflect.TypeOf(time.Time{}),
 	"strs": reflect.TypeOf([]string(nil)), "ints": reflect.TypeOf([]int(nil)), "i32s": reflect.TypeOf([]int32(nil)), "anys": reflect.TypeOf([]interface{}(nil)),
 	"smap": reflect.TypeOf(map[string]interface{}(nil)),
+	"appctx": reflect.TypeOf((*Context)(nil)).Elem(),
 }
+
+// Context is an interface of the application that is merely *named* like context.Context: a parameter of this type
+// is an ordinary declared parameter.
+type Context interface{ Tag() string }
 
 var (
 	ctxType = reflect.TypeOf((*context.Context)(nil)).Elem()
